@@ -24,11 +24,16 @@ def identity_bytes(w, ps):
 def run_history(w, sc, ps, side, hist, x=5):
     """executes a history on a fresh instance; returns the list of (op, outcome, scalar-after)"""
     s_ = sc.new(side, ps, b"pw", b"", b"", w.entropy_for(ps, x))
-    peer = peer_message(w, ps, side)
     # the message this instance sends (known in advance: same scalar on a twin)
     t = w.scenario("twin", ())
     tw = t.new(side, ps, b"pw", b"", b"", w.entropy_for(ps, x), NONE)
     own = payload(t.start(tw, NONE))
+    # a valid peer message whose element differs from ours (tiny groups can collide: that would be
+    # the legitimate ReflectionThwarted case, not "a valid peer message")
+    for px in range(11, 11 + 40):
+        peer = peer_message(w, ps, side, px % ps.q)
+        if peer[1:] != own[1:] and peer[1:] != identity_bytes(w, ps):
+            break
     peer_b = peer[:1]
     own_b = {"A": b"A", "B": b"B", "S": b"S"}[side]
     ident = identity_bytes(w, ps)
@@ -62,7 +67,7 @@ def run_history(w, sc, ps, side, hist, x=5):
                 else:
                     o = r_
         st = sc.do("state %d" % s_)
-        trace.append((op, o, st.split()[3]))
+        trace.append((op, o, st.split()[1] if len(st.split()) > 1 else "?"))
     return trace
 
 
@@ -144,9 +149,9 @@ def gen_C07(w, tier):
     toy = w.ps.get("toy2039_1019_4") or [p for p in w.ps.values() if p.toy and p.kind == "int" and not p.base][0]
     depth = 4 if big else 3
 
-    def add(ps, side, hist, tag):
-        sc = w.scenario("C07/%s/%s/%s" % (ps.name, side, "-".join(hist)), (tag, "side:" + side, "depth:%d" % len(hist)))
-        tr = run_history(w, sc, ps, side, hist)
+    def add(ps, side, hist, tag, x=5):
+        sc = w.scenario("C07/%s/%s/x%d/%s" % (ps.name, side, x, "-".join(hist)), (tag, "side:" + side, "depth:%d" % len(hist), "scalar:%s" % ("0" if x == 0 else "q-1" if x == ps.q - 1 else "mid")))
+        tr = run_history(w, sc, ps, side, hist, x)
         sc.meta.update(trace=tr, side=side, kind=ps.kind)
         sc.pred = lambda io, sc: spec_automaton(sc.meta["side"], sc.meta["kind"], sc.meta["trace"])
         out.append(sc)
@@ -154,6 +159,10 @@ def gen_C07(w, tier):
         for d in range(1, depth + 1):
             for hist in itertools.product(HOPS, repeat=d):
                 add(toy, side, hist, "exhaustive-toy")
+                if d <= 2 or big:
+                    add(toy, side, hist, "exhaustive-toy-scalar0", x=0)
+        for hist in itertools.product(HOPS, repeat=2):
+            add(toy, side, hist, "exhaustive-toy-scalar-q-1", x=toy.q - 1)
         # deeper, sampled
         for _ in range(150 if not big else 3000):
             d = r.randrange(depth + 1, depth + 5)
@@ -165,7 +174,7 @@ def gen_C07(w, tier):
             k = (25 if ps.kind == "ed" else 8) * (10 if big else 1)
             for _ in range(k):
                 d = r.randrange(1, 8)
-                add(ps, side, tuple(r.choice(HOPS) for _ in range(d)), "sampled-" + ps.name)
+                add(ps, side, tuple(r.choice(HOPS) for _ in range(d)), "sampled-" + ps.name, x=r.choice([5, 5, 0, ps.q - 1]))
             for hist in itertools.product(HOPS, repeat=2):
                 if ps.kind == "ed" and not ps.toy:
                     add(ps, side, hist, "exhaustive2-" + ps.name)
@@ -241,7 +250,7 @@ def gen_C08(w, tier):
                         return "serialize() output is not JSON: %s" % e
                     if not restored:
                         return "from_serialized(serialize()) failed"
-                    if st0.split()[3:] != st1.split()[3:] or st0.split()[1] != st1.split()[1]:
+                    if st0.split()[1:] != st1.split()[1:]:
                         return "restored instance differs from the original (scalar/outbound/pw scalar): %s vs %s" % (st0, st1)
                     if any(json.loads(payload(s).decode()) != json.loads(data.decode()) for s in sers if s.startswith("ok")) or not all(s.startswith("ok") for s in sers):
                         return "re-serialised data is not equivalent"
@@ -308,7 +317,7 @@ def gen_C09(w, tier):
                             return "A/B state restored as Symmetric raised %s" % o
                         continue
                     if o == "ok":
-                        if st.split()[4] != payload(m["m0"])[1:].hex() or fin[0] != fin[1]:
+                        if st.split()[2] != payload(m["m0"])[1:].hex() or fin[0] != fin[1]:
                             if _only_generator_differs(psA, psB, uses):
                                 return ("known", "K2", "state restored under a group with another generator: %s -> %s" % (m["ka"], kb_))
                             return "restored instance (%s -> %s) does not reproduce the original message/key" % (m["ka"], kb_)
@@ -431,7 +440,7 @@ def gen_C10(w, tier):
             for (vn, o, st, k) in mt["rec"]:
                 if o != "ok":
                     return "released-format state (%s) refused: %s" % (vn, o)
-                if st.split()[4] != payload(mt["m"])[1:].hex():
+                if st.split()[2] != payload(mt["m"])[1:].hex():
                     return "state (%s) resumed a different session" % vn
                 if k != mt["orig"]:
                     return "state (%s) finished to %s, original %s" % (vn, k, mt["orig"])
